@@ -8,6 +8,7 @@ import ClairModel.Proofs.TarFS
 import ClairModel.Proofs.TarFSInv
 import ClairModel.Proofs.TarFSSub
 import ClairModel.Proofs.TarFSExtract
+import ClairModel.Proofs.TarFSReject
 
 namespace ClairModel.Props.C11
 open ClairModel ClairModel.TarFS
@@ -212,5 +213,27 @@ theorem view_readdir_entries (fs : FS) (h : TreeOK [] fs) (p : Bytes) (j : Nat)
 theorem readdir_sorted (fs : FS) (j : Nat) :
     (fs.entries j).Pairwise (fun a b => bytesLe a.name b.name = true) :=
   entries_sorted fs j
+
+/-- Glob (patterns of literals, `*`, `?`) answers exactly the keys of the
+    lookup table that `path.Match` accepts, in sorted order. (That the keys are
+    the literal member names is what the finding `literal-names` is about.) -/
+theorem glob_exact (fs : FS) (pat n : Bytes) :
+    n ∈ globFS fs pat ↔ (∃ i, (n, i) ∈ fs.lookup) ∧ matchPat (pat.length + 2) pat n = true :=
+  mem_globFS fs pat n
+
+theorem glob_sorted (fs : FS) (pat : Bytes) :
+    (globFS fs pat).Pairwise (fun a b => bytesLe a b = true) :=
+  globFS_sorted fs pat
+
+/-- Rejected or the same, for link-free archives: an archive of directory
+    and regular-file members that has no defined extraction (a regular file is
+    used as a directory, or a regular file replaces a directory) is rejected
+    by New with an error. With `view_eq_extract_partial`: on link-free archives
+    New succeeds exactly when the extraction is defined, and then presents it
+    (a directory member over a regular file is skipped by both). -/
+theorem link_free_rejected_or_same (ms : List Member)
+    (hk : ∀ m ∈ ms, m.kind = .dir ∨ m.kind = .reg) (hx : extract ms = none) :
+    ∃ e, newFS ms = .error e :=
+  newFS_plain_fail ms hk hx
 
 end ClairModel.Props.C11
